@@ -84,3 +84,23 @@ Proof. vm_compute. reflexivity. Qed.
 (* C10: each group is labelled with the name it is requested by *)
 Theorem labels_are_requested_names : labels_ok gen_groups = true.
 Proof. vm_compute. reflexivity. Qed.
+
+(* the regenerated matrices are what the parser MODEL (binary64 instance) makes of the regenerated
+   strings: ties model/Parse.v to the tables, for all 17 operation strings *)
+From PV Require Import Num model.Parse.
+
+Definition row_matches (r : Coq.Floats.PrimFloat.float * Coq.Floats.PrimFloat.float * Coq.Floats.PrimFloat.float)
+  (a b c : Q) : bool :=
+  let '(x, y, z) := r in (float_is_Q x a && float_is_Q y b && float_is_Q z c)%bool.
+
+Definition parsed_matches (s : string) (m : list Q) : bool :=
+  match from_operations NumF s, m with
+  | POk r0 r1, [a; b; c; d; e; f; g; h; i] =>
+      (row_matches r0 a b c && row_matches r1 d e f
+       && Qeq_bool g 0 && Qeq_bool h 0 && Qeq_bool i 0)%bool
+  | _, _ => false
+  end.
+
+Theorem tables_are_parsed_strings :
+  forallb (fun g => forallb2 parsed_matches (gg_ops_str g) (gg_ops g)) gen_groups = true.
+Proof. vm_compute. reflexivity. Qed.
